@@ -1642,7 +1642,20 @@ static void do_source_file(const char *filename_in,
 
    if (did_open)
    {
-      fclose(pfout);
+      // a failed write (e.g. disk full) must not replace the original file
+      bool write_failed = (ferror(pfout) != 0);
+
+      if (fclose(pfout) != 0)
+      {
+         write_failed = true;
+      }
+
+      if (write_failed)
+      {
+         LOG_FMT(LERR, "%s: Unable to write %s: %s (%d)\n",
+                 __func__, filename_tmp.c_str(), strerror(errno), errno);
+         exit(EX_IOERR);
+      }
 
       if (need_backup)
       {
